@@ -94,6 +94,28 @@ def _scenario(items):
                 inner = [h.add_node(op, c) for op in it[2]]
                 order.append(("box", c, inner))
     return h, root, order
+
+def _scenario2(items):
+    """like _scenario, with Conditional / CFG containers whose children are Case / DataflowBlock regions"""
+    h = MiniHugr()
+    root = h.add_node(FUNCDEFN, None)
+    h.add_node(INPUT, root)
+    h.add_node(OUTPUT, root)
+    order = []
+    with track_hugr_side_effects():
+        for it in items:
+            if it[0] == "leaf":
+                order.append(("leaf", h.add_node(it[1], root)))
+            else:
+                c = h.add_node(it[1], root)
+                regions = []
+                for regop, leaves in it[2]:
+                    r = h.add_node(regop, c)
+                    h.add_node(INPUT, r)
+                    h.add_node(OUTPUT, r)
+                    regions.append((r, [h.add_node(op, r) for op in leaves]))
+                order.append(("multi", c, regions))
+    return h, root, order
 '''
 
 
@@ -169,7 +191,64 @@ def p2(chk):
             chk.prove_paths(f"track_hugr_side_effects[{nm}]:order-edges==one-chain-Input->effects-in-insertion-order->Output-per-region(containers-from-their-first-inner-effect)",
                             paths, post, func=f"{CC}:track_hugr_side_effects")
             n_obl += 1
-    chk.record("track_hugr_side_effects:all-shapes-and-flag-vectors-explored", n_obl >= 60, str(n_obl), kind="reachability")
+    # Conditional / CFG containers: an effect inside a Case / DataflowBlock is chained inside that
+    # region, the region itself takes no order edge, and the Conditional / CFG node joins the chain
+    # of ITS parent (otherwise a panic inside an unused Conditional is dead code for the backend)
+    kinds.update({k: ClassVal(k, builtin=True) for k in ("Case", "DataflowBlock")})
+    ops_ns.fields.update(kinds)
+    n2 = 0
+    for ckind, rkind in (("Conditional", "Case"), ("CFG", "DataflowBlock")):
+        for pre, post_leaf in itertools.product((None, False, True), repeat=2):
+            for flags in itertools.product((False, True), repeat=3):       # region 0 has one leaf, region 1 has two
+                def t2(it, ckind=ckind, rkind=rkind, pre=pre, post_leaf=post_leaf, flags=flags):
+                    g = it.ctx.mod_globals(m)
+                    g["ops"] = ops_ns
+                    loc = it.exec_snippet(m, HUGR_SNIPPET, {"FUNCDEFN": mkop(it, "FuncDefn"), "INPUT": mkop(it, "Input"), "OUTPUT": mkop(it, "Output")})
+                    for nm in ("_Op", "_NodeData", "MiniHugr", "FUNCDEFN", "INPUT", "OUTPUT"):
+                        g[nm] = loc[nm]
+                    g["Hugr"] = loc["MiniHugr"]
+                    items = []
+                    if pre is not None:
+                        items.append(("leaf", mkop(it, "Leaf", pre)))
+                    items.append(("multi", mkop(it, ckind), [(mkop(it, rkind), [mkop(it, "Leaf", flags[0])]), (mkop(it, rkind), [mkop(it, "Leaf", flags[1]), mkop(it, "Leaf", flags[2])])]))
+                    if post_leaf is not None:
+                        items.append(("leaf", mkop(it, "Leaf", post_leaf)))
+                    return it.call(loc["_scenario2"], [items], {})
+                paths = e.explore(t2)
+
+                def post2(p):
+                    if p.kind != "return":
+                        return z3.BoolVal(False)
+                    h, root, order = p.value
+                    links = [tuple(x) for x in h.fields["links"]]
+                    data = h.fields["data"]
+                    kids = lambda parent: [i for i, d in enumerate(data) if d.fields["parent"] == parent]  # noqa: E731
+                    eff = lambda i: bool(data[i].fields["op"].fields.get("effect"))  # noqa: E731
+                    want, chain = [], []
+                    for item in order:
+                        if item[0] == "leaf":
+                            if eff(item[1]):
+                                chain.append(item[1])
+                        else:
+                            _, c, regions = item
+                            any_eff = False
+                            for r, leaves in regions:
+                                le = [i for i in leaves if eff(i)]
+                                if le:
+                                    any_eff = True
+                                    seq = [kids(r)[0]] + le + [kids(r)[1]]
+                                    want += list(zip(seq, seq[1:]))
+                            if any_eff:
+                                chain.append(c)
+                    if chain:
+                        seq = [kids(root)[0]] + chain + [kids(root)[1]]
+                        want += list(zip(seq, seq[1:]))
+                    return z3.BoolVal(sorted(links) == sorted(want) and len(set(links)) == len(links))
+                nm = f"{'L' + str(int(pre)) + ',' if pre is not None else ''}{ckind}[{rkind}:{int(flags[0])}|{rkind}:{int(flags[1])}{int(flags[2])}]{',L' + str(int(post_leaf)) if post_leaf is not None else ''}"
+                chk.prove_paths(f"track_hugr_side_effects[{nm}]:effects-chained-inside-their-region/\\the-{ckind}-node-joins-its-parent's-chain-iff-some-region-has-an-effect/\\regions-take-no-order-edge",
+                                paths, post2, func=f"{CC}:track_hugr_side_effects")
+                n2 += 1
+    chk.record("track_hugr_side_effects:all-shapes-and-flag-vectors-explored", n_obl >= 60 and n2 >= 100, f"{n_obl}+{n2}", kind="reachability")
     chk.use_engine(e)
 
 
